@@ -411,3 +411,112 @@ class Check:
 def infra_exit(prop, e):
     log("INFRA-ERROR property=%s %s" % (prop, str(e)[:3000]))
     sys.exit(2)
+
+
+# --------------------------------------------------------------------------
+# helpers shared by property modules
+# --------------------------------------------------------------------------
+
+def tlc_cfg_with(cfg, rundir, subst):
+    """Copy spec/<cfg> into rundir with `NAME = value` constant lines replaced."""
+    src = open(os.path.join(SPEC, cfg)).read()
+    for k, v in subst.items():
+        src, n = re.subn(r"(?m)^(\s*%s\s*=\s*).*$" % re.escape(k), lambda m: m.group(1) + str(v), src)
+        if n == 0:
+            raise InfraError("constant %s not in %s" % (k, cfg))
+    out = os.path.join(rundir, os.path.basename(cfg))
+    open(out, "w").write(src)
+    return out
+
+
+def write_cases(path, cases):
+    """cases: iterable of (id, opts, body-bytes-or-str)"""
+    with open(path, "wb") as fh:
+        for cid, opts, body in cases:
+            if isinstance(body, str):
+                body = body.encode("latin-1")
+            fh.write(("@CASE %s %d %s\n" % (cid, len(body), opts)).encode())
+            fh.write(body)
+            fh.write(b"\n")
+
+
+def read_ndjson(path):
+    out = []
+    with open(path, "r", errors="replace") as fh:
+        for line in fh:
+            line = line.strip()
+            if not line:
+                continue
+            try:
+                out.append(json.loads(line))
+            except ValueError:
+                # a worker that died mid-line leaves a fragment; the parent's
+                # record for that case follows on its own line
+                continue
+    return out
+
+
+def conform(vdir, mode, cases_path, out_path, *args, timeout=3000):
+    cmd = [os.path.join(vdir, "conform"), mode, cases_path, out_path] + [str(a) for a in args]
+    env = dict(os.environ)
+    env["ASAN_OPTIONS"] = "detect_leaks=0:abort_on_error=0:halt_on_error=1:allocator_may_return_null=1"
+    env["UBSAN_OPTIONS"] = "print_stacktrace=0:halt_on_error=1"
+    p = subprocess.run(cmd, env=env, stdout=subprocess.PIPE, stderr=subprocess.STDOUT, timeout=timeout)
+    if p.returncode != 0:
+        raise InfraError("conform %s failed rc=%d: %s" % (mode, p.returncode, p.stdout.decode(errors="replace")[-2000:]))
+    return read_ndjson(out_path)
+
+
+def conform_parallel(vdir, mode, cases, rundir, tag, *args, nproc=None, timeout=3000):
+    """Split cases over processes; returns all observation records."""
+    from concurrent.futures import ThreadPoolExecutor
+    nproc = nproc or min(NCPU, max(1, len(cases) // 200))
+    chunks = [cases[i::nproc] for i in range(nproc)]
+    def one(i):
+        cp = os.path.join(rundir, "%s.cases.%d" % (tag, i))
+        op = os.path.join(rundir, "%s.obs.%d" % (tag, i))
+        write_cases(cp, chunks[i])
+        return conform(vdir, mode, cp, op, *args, timeout=timeout)
+    out = []
+    with ThreadPoolExecutor(nproc) as ex:
+        for r in ex.map(one, range(nproc)):
+            out.extend(r)
+    return out
+
+
+def tlc_accept(module, cfg, events, rundir, tag, nchunks=None, env=None, heap="3g", timeout=1500):
+    """Run the acceptor over ndjson events split in chunks (one TLC each, in
+    parallel).  Returns (verdict records, [TlcResult])."""
+    from concurrent.futures import ThreadPoolExecutor
+    n = len(events)
+    if n == 0:
+        raise InfraError("empty trace for " + tag)
+    nchunks = nchunks or max(1, min(NCPU, n // 400))
+    per = (n + nchunks - 1) // nchunks
+    parts = [events[i:i + per] for i in range(0, n, per)]
+
+    def one(i):
+        tp = os.path.join(rundir, "%s.trace.%d.ndjson" % (tag, i))
+        with open(tp, "w") as fh:
+            for e in parts[i]:
+                fh.write(json.dumps(e, separators=(",", ":")) + "\n")
+        d = os.path.join(rundir, "%s.tlc.%d" % (tag, i))
+        os.makedirs(d, exist_ok=True)
+        e2 = dict(env or {})
+        e2["TRACE"] = tp
+        r = tlc(module, cfg, d, env=e2, workers=1, heap=heap, timeout=timeout)
+        if not r.ok:
+            raise InfraError("acceptor %s stopped on %s: %s" % (module, r.violated, r.out[-2000:]))
+        vs = parse_payload(r.lines, "VERDICT ")
+        done = [v for v in vs if "done" in v]
+        if len(done) != 1 or done[0]["done"] != len(parts[i]):
+            raise InfraError("acceptor %s did not consume its trace (%s of %d)\n%s" % (
+                module, done, len(parts[i]), r.out[-1500:]))
+        return [v for v in vs if "done" not in v], r
+
+    verdicts, runs = [], []
+    with ThreadPoolExecutor(len(parts)) as ex:
+        for vs, r in ex.map(one, range(len(parts))):
+            verdicts.extend(vs)
+            runs.append(r)
+    return verdicts, runs
